@@ -25,6 +25,7 @@ ASSUMPTIONS = [
 ]
 REQUIRED = ["strings_with_gaps_of_a_thousand_and_more_blanks", "documents_larger_than_one_mebibyte", "documents_starting_with_a_byte_order_mark", "documents_with_internal_entities", "documents_after_the_rest_of_the_library_was_used", "library_modules_imported", "cross_mode_cases", "strings", "strings_with_nbsp", "documents", "documents_twice", "protected_segments", "normalised_segments", "attribute_values",
             "xsi_attributes", "protected_nested_in_protected"]
+THREAD_HAMMER = "full"      # (mode T side shards: the hammering threads also import, load and copy documents of their own)
 EXHAUSTIVE = {"quick": False, "thorough": False}
 
 PROTECTED = ("markup", "literalLayout", "objectName", "attributeName", "para")
